@@ -80,6 +80,8 @@ structure UpdateOK (t : Tree V) (cs : List (Nat × Option (V × Bool))) (pagesOf
   /-- released bbn-store pages: (a permutation of) the pages of the old branch nodes that are not part of the new index -/
   bbn_freed : o.bbnFreed.Perm ((t.index.filter fun n => decide (n.sep ∉ (oldsOfB o.branchLevel).map (·.sep))).map (·.bbn))
   ln_allocs : o.lnAllocs = a0 + (newsOf o.leafLevel).length
+  /-- `PostIoWork::run` inserts exactly the produced leaves into the leaf cache, each under the page number it was written to -/
+  postio : ∀ pn l, (pn, l) ∈ o.postIo ↔ ∃ i, (newsOf o.leafLevel)[i]? = some l ∧ pn = lnFresh (a0 + i)
   bbn_allocs : o.bbnAllocs = (newsOfB o.branchLevel).length
 
 theorem lvlOf_old (lpn fresh : Nat → Nat) (a : Nat) : ∀ (db : List (DbLeaf V)),
@@ -132,7 +134,7 @@ theorem update_spec (pagesOf : V → List Nat) (lnFresh bbnFresh : Nat → Nat) 
       unfold OutAsc; rw [List.pairwise_map]; exact (List.pairwise_map).1 hsasc
     refine ⟨by simp [LeafUpd.ovfLog_nil_keys]; rfl, hcontent, hoasc, hnews, ?_, hchain, ht.index, ?_, ?_, ?_,
       (by intro n hn; simpa [oldsOfB_old] using hn),
-      ⟨[], by simp [LeafUpd.ovfLog_nil_keys], ?_⟩, ?_, by simp [newsOf_old], by simp [newsOfB_old]⟩
+      ⟨[], by simp [LeafUpd.ovfLog_nil_keys], ?_⟩, ?_, by simp [newsOf_old], (by simp [newsOf_old]), by simp [newsOfB_old]⟩
     · intro l hl
       obtain ⟨y, hy, e⟩ := List.mem_map.1 hl
       cases e; exact hy
@@ -177,7 +179,7 @@ theorem update_spec (pagesOf : V → List Nat) (lnFresh bbnFresh : Nat → Nat) 
       rw [hlcs] at hlevel
       refine ⟨hl.run, hl.content, hl.asc, hl.news, hl.olds, hl.chain, ht.index, ?_, ?_, ?_,
         (by intro n hn; simpa [oldsOfB_old] using hn), hl.freed, ?_,
-        hl.allocs, by simp [newsOfB_old]⟩
+        hl.allocs, hl.postio, by simp [newsOfB_old]⟩
       · rw [hlvl0, ← hlevel]; rfl
       · show t.index = idxOf bbnFresh 0 (t.index.map OutNode.old)
         rw [idxOf_old]
@@ -200,7 +202,7 @@ theorem update_spec (pagesOf : V → List Nat) (lnFresh bbnFresh : Nat → Nat) 
         simp only [update, hcsne, Bool.false_eq_true, if_false, hleaf, hbranch]
       refine ⟨_, hres, ?_⟩
       refine ⟨hl.run, hl.content, hl.asc, hl.news, hl.olds, hl.chain, hbok, ?_, hbidx, hbasc, hbolds, hl.freed,
-        hbfreed, hl.allocs, hballoc⟩
+        hbfreed, hl.allocs, hl.postio, hballoc⟩
       rw [hbflat, hlvl0, hl.level]
 
 end Nomt.StageGlue
